@@ -272,20 +272,27 @@ def zid_assignment_eval(run: Run, model: PyModel, rid: str) -> None:
             f = s.obj(x).fields
             zid = f["zid"]
             first_line = body.split("\n")[0]
-            try:
-                lres = I.run_function(f"{H}._add_zid_to_line", [zid, "- " + first_line.lstrip() if body.startswith(" ") else "- " + first_line], st=State())
-            except Exception as e:
-                run.undecided(rid, "_add_zid_to_line", f"cannot evaluate abstractly: {type(e).__name__}: {e}")
-                continue
-            for lv, ls in lres:
-                if isinstance(lv, Raised) or ls.imprecise or not isinstance(lv, str):
-                    run.undecided(rid, "_add_zid_to_line", f"{first_line!r}: " + (f"raises {lv.exc}" if isinstance(lv, Raised) else "; ".join(ls.imprecise[:2]) or repr(lv)))
+            text = first_line.lstrip() if body.startswith(" ") else first_line
+            w0 = text.split(" ")[0]
+            real_priority = len(w0) == 2 and w0[0] == "P" and w0[1].isdigit()
+            # the same text as a plain note, as a todo, and as a todo with a priority (a todo's own priority word is not part of its body, so a body that starts with one is only tried behind a priority)
+            prefixes = ["- ", "o P1 ", "  x P0 "] + ([] if real_priority else ["o ", "~ "])
+            for prefix in prefixes:
+                try:
+                    lres = I.run_function(f"{H}._add_zid_to_line", [zid, prefix + text], st=State())
+                except Exception as e:
+                    run.undecided(rid, "_add_zid_to_line", f"cannot evaluate abstractly: {type(e).__name__}: {e}")
                     continue
-                idx_first = f["body"].split("\n")[0] if isinstance(f["body"], str) else None
-                ok = idx_first is not None and lv == "- " + idx_first
-                run.check(rid, f"index body and file line agree after the ZID is added (first word {first_line.split()[0]!r})", ok, "_add_zids/_add_zid_to_line", f"{first_line!r}: index {idx_first!r} file {lv!r}",
-                          f"for an item `- {first_line}` the indexed body starts {idx_first!r} but the file line becomes {lv!r}: index and file disagree (and the page is not re-read, its hash having been refreshed)",
-                          file=FILE_R, node=fz.node)
+                for lv, ls in lres:
+                    if isinstance(lv, Raised) or ls.imprecise or not isinstance(lv, str):
+                        run.undecided(rid, "_add_zid_to_line", f"{prefix + text!r}: " + (f"raises {lv.exc}" if isinstance(lv, Raised) else "; ".join(ls.imprecise[:2]) or repr(lv)))
+                        continue
+                    idx_first = f["body"].split("\n")[0] if isinstance(f["body"], str) else None
+                    ok = idx_first is not None and lv == prefix + idx_first
+                    run.check(rid, f"index body and file line agree after the ZID is added (`{prefix}`, first word {first_line.split()[0]!r})", ok, "_add_zids/_add_zid_to_line",
+                              f"{prefix + text!r}: index {idx_first!r} file {lv!r}",
+                              f"for an item `{prefix}{text}` the indexed body starts {idx_first!r} but the file line becomes {lv!r}: index and file disagree (and the page is not re-read, its hash having been refreshed)",
+                              file=FILE_R, node=fz.node)
             want_rest = first_line.lstrip()
             if LONG.get(want_rest.split(" ")[0]):
                 want_rest = want_rest.split(" ", 1)[1]
